@@ -218,10 +218,12 @@ def run_shard(spec, rec):
     all_sigs = [(p, r) for n in range(0, 4) for p in itertools.product(TYPES, repeat=n) for r in TYPES]
     k = (len(all_sigs) + spec["shards"] - 1) // spec["shards"]
     mine = all_sigs[spec["shard"] * k:(spec["shard"] + 1) * k]
-    for v in range(3):
-        sc = Script(R, sigs=(mine if v == 0 else None), nfuncs=8)
+    from jsonpath_rfc9535 import function_extensions as _fe
+    for v in range(4):
+        # script 3: functions with the standard functions' signatures, written as subclasses of the standard classes
+        sc = Script(R, sigs=(mine if v == 0 else [((N,), V), ((N,), V), ((V,), V), ((V, V), L), ((V, V), L), ((N,), V)] if v == 3 else None), nfuncs=8)
         calls = []
-        env, probes = mon.make_env(sc.real_registry(jp, calls))
+        env, probes = mon.make_env(sc.real_registry(jp, calls), bases=({"p0": _fe.Count, "p1": _fe.Value, "p2": _fe.Length, "p3": _fe.Match, "p4": _fe.Search} if v == 3 else None))
         model = sem.Model(sc.model_registry())
         sigs = dict(sem.BUILTIN_SIGS)
         sigs.update(sc.sigs)
@@ -328,7 +330,48 @@ def run_shard(spec, rec):
                 rec.violation("probe-argument:%s" % bad_t, dict(wit, function=name_, observed_arguments=jsonable(sig_),
                                                                 predicted_calls=jsonable(sorted((p for p in sc.predicted if p[0] == name_), key=repr))[:4]))
                 break
+    if spec["shard"] == 0:
+        hook_battery(jp, rec)
     rec.extra["ledger"] = ledger
+
+
+def hook_battery(jp, rec):
+    """The documented compile-time hook validate_function_extension_signature RETURNS the argument list the call is
+    built from: an environment that reorders or pads the arguments there sees its functions called accordingly."""
+    from jsonpath_rfc9535 import JSONPathEnvironment
+    seen = []
+
+    class HookEnv(JSONPathEnvironment):
+        def validate_function_extension_signature(self, token, args):
+            if token.value == "pad2" and len(args) == 1:
+                args = list(args) + [args[0]]
+            args = super().validate_function_extension_signature(token, args)
+            if token.value == "rev2":
+                return list(reversed(args))
+            return args
+
+    env = HookEnv()
+    for nm in ("rev2", "pad2", "plain2"):
+        env.function_extensions[nm] = mon.Probe(nm, (V, V), V, lambda a, b, nm=nm: (seen.append((nm, a, b)), 1)[1])
+    docs = [[{"a": 1, "b": 2}, {"a": "x", "b": [3]}, {"a": None}], {"k": {"a": 0, "b": False}}]
+    for doc in docs:
+        kids = list(doc.values()) if isinstance(doc, dict) else doc
+        for text, want in (("$[?rev2(@.a, @.b) == 1]", lambda c: ("rev2", c.get("b", jp.NOTHING), c.get("a", jp.NOTHING))),
+                           ("$[?plain2(@.a, @.b) == 1]", lambda c: ("plain2", c.get("a", jp.NOTHING), c.get("b", jp.NOTHING))),
+                           ("$[?pad2(@.a) == 1]", lambda c: ("pad2", c.get("a", jp.NOTHING), c.get("a", jp.NOTHING))),
+                           ("$[?rev2(@.a, 7) == 1]", lambda c: ("rev2", 7, c.get("a", jp.NOTHING)))):
+            del seen[:]
+            o = mon.observe(env.find, text, doc)
+            rec.monitor("M-find")
+            rec.monitor("M-probe-call")
+            rec.case(("hook", text, repr(doc)), True)
+            rec.feat("hook-battery")
+            exp = [want(c) for c in kids]
+            same = o[0] == "ok" and len(seen) == len(exp) and all(a[0] == b[0] and a[1] is b[1] or a[1] == b[1] and type(a[1]) is type(b[1]) for a, b in zip(seen, exp)) \
+                and all(a[2] is b[2] or (a[2] == b[2] and type(a[2]) is type(b[2])) for a, b in zip(seen, exp))
+            if not same:
+                rec.violation("hook-returned-arguments-not-used", {"query": text, "document": jsonable(doc), "observed_calls": jsonable([list(x) for x in seen]) if o[0] == "ok" else mon.describe_outcome(o),
+                                                                  "expected_calls": jsonable([list(x) for x in exp])})
 
 
 def finish(m, tier):
